@@ -11,7 +11,8 @@ META = {
     "text": "TLC enumerates every document of a family of small layouts (catalog, page-tree root, up to 3 pages with Parent "
             "back-references, further objects with reference slots; every injective assignment of sparse object numbers so "
             "that page ids are in any order, generations 0/1, shared, cyclic, self and dangling references, bookmarks on "
-            "pages, start values below/inside/above the old range), runs renumber_objects_with transcribed action by action "
+            "pages and (0,0) hung together as roots, children, grandchildren and entries under no root, reference slots nested "
+            "up to the parser's limit of 48 containers, start values below/inside/above the old range), runs renumber_objects_with transcribed action by action "
             "(page-order pass, dense pass, traverse_objects, bookmark table renamed through the whole map) and checks the result against the "
             "declarative statement: a functional, injective renaming found by lock-step traversal from the two trailers "
             "under which trailer, reachable objects, page sequence and bookmark targets are the originals renamed, numbers "
@@ -20,11 +21,15 @@ META = {
             "counter-example; with those defects seeded back into the model the only counter-examples are exactly their four "
             "signatures (negative control of the declarative layer). Every generated "
             "document is then renumbered by lopdf and the before/after pair judged by TLC with the declarative layer only; "
-            "so are before/after pairs of seeded random reference graphs of up to 16 objects.",
+            "so are before/after pairs of seeded random reference graphs of up to 16 objects and of two deterministic families "
+            "(a reference inside 1, 2, 10, 47, 48 nested arrays / dictionaries / both, in an object and in the trailer; bookmark "
+            "forests with grandchildren, entries of bookmark_table under no root, ids listed under two parents or twice under "
+            "one). Every entry of bookmark_table counts as a bookmark whose target must follow the renaming.",
     "note": "Trusted: TLC, the projection in harness/src/wire.rs, Renumber!Acceptable as the reading of the statement "
             "(generations are not required to be preserved; references held by unreachable objects need not be renamed). "
             "Exhaustive only within the model bounds (<=4 objects quick, <=5 thorough); beyond that sampled. Not covered: two "
-            "live objects sharing one number, page trees that are not trees, bookmark targets unreachable from the trailer, "
+            "live objects sharing one number, page trees that are not trees, bookmark targets unreachable from the trailer "
+            "(only: still an object of the same shape, no reachable object renamed onto it), nesting beyond the parser's limit, "
             "start + count beyond u32.",
     "design_ref": "DESIGN.md section 4 C10",
 }
@@ -74,9 +79,38 @@ def has_ref_outside(d):
     return found
 
 
-def classes(before, start):
+def ref_nesting(d):
+    """largest number of containers (arrays, dictionaries, streams; the trailer counts as one) around a
+    reference of the document"""
+    best = [0]
+
+    def walk(x, depth):
+        k = x.get("k")
+        if k == "ref":
+            best[0] = max(best[0], depth)
+        elif k == "arr":
+            for v in x["v"]:
+                walk(v, depth + 1)
+        elif k == "dict":
+            for p in x["v"]:
+                walk(p[1], depth + 1)
+        elif k == "stream":
+            for p in x["d"]:
+                walk(p[1], depth + 1)
+
+    walk({"k": "dict", "v": d["trailer"]}, 0)
+    for o in d["objects"]:
+        walk(o[2], 0)
+    return best[0]
+
+
+def classes(before, start, bmc=()):
     """input classes of one case (anti-vacuity bookkeeping)"""
-    c = set()
+    c = set("bm-" + x for x in bmc)
+    nest = ref_nesting(before)
+    for lim in (2, 10, 47, 48):
+        if nest >= lim:
+            c.add("nest>=%d" % lim)
     nums = [o[0] for o in before["objects"]]
     if before["pages"] != sorted(before["pages"]):
         c.add("pages-out-of-id-order")
@@ -155,7 +189,7 @@ def judge(chk, recs, w, name, seen_classes, count_drift=True):
             continue
         v = next(it)
         out.append(v)
-        cl = classes(rec["before"], rec["start"])
+        cl = classes(rec["before"], rec["start"], rec.get("bmc", ()))
         nontrivial = len(rec["before"]["objects"]) >= 2
         chk.case(case_key(rec) if nontrivial else None)
         seen_classes.update(cl)          # classes of the *inputs* judged (independent of the verdict)
@@ -279,7 +313,7 @@ def run(tier):
     chk.extra["model_drift"] = chk.extra.get("model_drift", 0) + drift
     chk.extra["replayed_behaviours"] = len(cases)
     need = {"pages-out-of-id-order", "generation>0", "dangling", "bookmarks", "sparse", "start<=min", "start-inside",
-            "start>max"}
+            "start>max", "nest>=48", "bm-loose", "bm-nested2"}
     if not need <= seen:
         raise vlib.ToolError("vacuous replay set: no judged case of class %s" % sorted(need - seen))
     mid = len(cases) // 2
@@ -292,13 +326,19 @@ def run(tier):
     tr = os.path.join(w, "rec.ndjson")
     run_bin("c10", ["record", "--seed", vlib.seed(), "--n", n, "--out", tr])
     recs = read_ndjson(tr)
-    if len(recs) != n:
-        raise vlib.ToolError("recorder produced %d of %d records" % (len(recs), n))
+    fams = {}
+    for rec in recs:
+        if "fam" in rec:
+            fams[rec["fam"]] = fams.get(rec["fam"], 0) + 1
+    if len(recs) - sum(fams.values()) != n or fams.get("deep", 0) < 90 or fams.get("bookmarks", 0) < 48:
+        raise vlib.ToolError("recorder produced %d records (%d random wanted), families %s" % (len(recs), n, fams))
+    chk.extra["recorded_families"] = fams
     seen2 = set()
     vs2 = judge(chk, recs, w, "record", seen2)
+    need = need | {"nest>=2", "nest>=10", "nest>=47", "bm-shared"}
     if not need <= seen2:
         raise vlib.ToolError("vacuous recorded set: no judged case of class %s" % sorted(need - seen2))
-    big = sum(1 for rec in recs if "before" in rec and len(rec["before"]["objects"]) >= 8)
+    big = sum(1 for rec in recs if "before" in rec and "fam" not in rec and len(rec["before"]["objects"]) >= 8)
     if big < n // 5:
         raise vlib.ToolError("vacuous recorded set: only %d documents with >= 8 objects" % big)
     chk.extra["recorded_runs"] = n
